@@ -20,23 +20,23 @@ import (
 // C17: Create is deterministic and invariant under irrelevant variation.
 
 type c17Case struct {
-	Fmt   string `json:"fmt"`   // p2, p1
-	N     int    `json:"n"`     // number of files
-	Perm  int    `json:"perm"`  // index of the permutation of the input list (PAR2 only)
-	G     int    `json:"g"`     // goroutines
-	Cwd   string `json:"cwd"`   // set, parent, unrelated
-	Spell string `json:"spell"` // rel, abs, dotslash, dblslash, updown
-	Via   string `json:"via"`   // lib, cli
-	Rep   int    `json:"rep,omitempty"`
-	Big   bool   `json:"big,omitempty"`   // slice size 96 and larger files, so that the goroutine option really splits the work
-	Blocks int   `json:"blocks,omitempty"` // recovery blocks / volumes (default 3)
-	PriorBlocks int `json:"priorblocks,omitempty"` // history inside the process: an unrelated Create with this many blocks ran just before
-	Names int    `json:"names,omitempty"` // 1: directory names that are string prefixes of sibling file names (photos/ and photos.txt, photos/deep/ and photos/deep.bak)
-	Look  bool   `json:"look,omitempty"` // look-alike inputs: every file 17000 bytes with the same first 16 KiB, different tails (slice size 1000)
-	DupK  int    `json:"dupk,omitempty"`  // with Dup: which input is mentioned twice (index into the listed order)
-	DupAt int    `json:"dupat,omitempty"` // with Dup: 0 = the second mention goes to the end of the list; k>0 = it is inserted at position k-1
-	Dup   string `json:"dup,omitempty"`   // the first input is listed a second time (at the end), spelled in this style
-	Stale int    `json:"stale,omitempty"` // the set directory already holds output files: 1 = longer garbage under the same names, 2 = shorter, 3 = unrelated text; 4 = a real earlier Create over the same inputs with ONE block; 5 = a real earlier identical Create whose recovery files were then deleted / corrupted
+	Fmt         string `json:"fmt"`   // p2, p1
+	N           int    `json:"n"`     // number of files
+	Perm        int    `json:"perm"`  // index of the permutation of the input list (PAR2 only)
+	G           int    `json:"g"`     // goroutines
+	Cwd         string `json:"cwd"`   // set, parent, unrelated
+	Spell       string `json:"spell"` // rel, abs, dotslash, dblslash, updown
+	Via         string `json:"via"`   // lib, cli
+	Rep         int    `json:"rep,omitempty"`
+	Big         bool   `json:"big,omitempty"`         // slice size 96 and larger files, so that the goroutine option really splits the work
+	Blocks      int    `json:"blocks,omitempty"`      // recovery blocks / volumes (default 3)
+	PriorBlocks int    `json:"priorblocks,omitempty"` // history inside the process: an unrelated Create with this many blocks ran just before
+	Names       int    `json:"names,omitempty"`       // 1: directory names that are string prefixes of sibling file names (photos/ and photos.txt, photos/deep/ and photos/deep.bak)
+	Look        bool   `json:"look,omitempty"`        // look-alike inputs: every file 17000 bytes with the same first 16 KiB, different tails (slice size 1000)
+	DupK        int    `json:"dupk,omitempty"`        // with Dup: which input is mentioned twice (index into the listed order)
+	DupAt       int    `json:"dupat,omitempty"`       // with Dup: 0 = the second mention goes to the end of the list; k>0 = it is inserted at position k-1
+	Dup         string `json:"dup,omitempty"`         // the first input is listed a second time (at the end), spelled in this style
+	Stale       int    `json:"stale,omitempty"`       // the set directory already holds output files: 1 = longer garbage under the same names, 2 = shorter, 3 = unrelated text; 4 = a real earlier Create over the same inputs with ONE block; 5 = a real earlier identical Create whose recovery files were then deleted / corrupted
 }
 
 var c17Names = []string{"f0", "sub/f1", "f2", "sub/deep/f3"}
